@@ -1,6 +1,8 @@
 """Uniqueness scopes (R07.4 = R09.3 = R14.2): every keyed store of a document-derived artefact is dominated by a
-membership test on the same key in the same collection that leads to a diagnostic, or the key is unique by
-construction (frozen table, one line of reason each), and conflict-resolution paths end in a re-check."""
+membership test on the same key in the same collection that leads to a diagnostic - in the function that stores or, when
+the store sits in a helper / a method of the registry class that is handed the key, at every call site of the helper (the
+key read in the caller's terms) -, or re-registers an object under its own name, or the key is unique by construction
+(frozen table, one line of reason each), and conflict-resolution paths end in a re-check."""
 from __future__ import annotations
 
 import ast
@@ -14,8 +16,6 @@ from ..pyindex import FuncInfo, dotted
 
 # stores whose key is unique by construction or whose merge is intended: construct key -> reason (confirmed by reading)
 FROZEN = {
-    "parser.bodies.body_from_data::classes_by_name[_.class_info.name]":
-        "re-registration of an already registered (or just created) model under its own class name after evolve(is_multipart_body=True)",
     "parser.properties.schemas.update_schemas_with_data::classes_by_reference[ref_path]":
         "ref_path is built from a key of components.schemas: keys of one mapping are distinct",
     "parser.properties.schemas.update_parameters_with_data::classes_by_reference[ref_path]":
@@ -94,25 +94,25 @@ def _key_alternatives(fn: ast.AST, key: ast.expr, depth: int = 3) -> list[ast.ex
 def same_key(a: ast.AST, b: ast.AST, fn: ast.AST) -> bool:
     """two key expressions denote the same key: equal text, or equal once the locals that are bound exactly once are replaced by
     what they are bound to (`name = info.name; if name in reg` tests the key of `reg[info.name] = ...`)"""
-    return norm(a) == norm(b) or norm(_inline_locals(a, fn)) == norm(_inline_locals(b, fn))
+    return norm(a) == norm(b) or norm(_inline_locals(a, fn)) == norm(_inline_locals(b, fn)) or norm(canon_key(a, fn)) == norm(canon_key(b, fn))
 
 
-def _registry_stores(f: FuncInfo, names: set[str]) -> list[tuple[ast.stmt, str, ast.expr, str]]:
-    """(statement, registry name, key expr, kind) for stores into one of the registries `names`.  A key that is a choice between
-    several expressions (see _key_alternatives) and is not itself the subject of a membership test counts as one store per
+def _registry_stores(f: FuncInfo, names: set[str]) -> list[tuple[ast.stmt, str, ast.expr, str, "ast.expr | None"]]:
+    """(statement, registry name, key expr, kind, stored value) for stores into one of the registries `names`.  A key that is a choice
+    between several expressions (see _key_alternatives) and is not itself the subject of a membership test counts as one store per
     alternative: each must be justified on its own."""
-    out: list[tuple[ast.stmt, str, ast.expr, str]] = []
+    out: list[tuple[ast.stmt, str, ast.expr, str, "ast.expr | None"]] = []
     aliases = _aliases(f.node)
     tested: dict[str, list[ast.expr]] = {}
 
-    def emit(st: ast.stmt, reg: str, key: ast.expr, kind: str) -> None:
+    def emit(st: ast.stmt, reg: str, key: ast.expr, kind: str, value: "ast.expr | None" = None) -> None:
         if reg not in tested:
             tested[reg] = [k for _, k in membership_tests(f, reg)]
         if any(same_key(k, key, f.node) for k in tested[reg]):
-            out.append((st, reg, key, kind))
+            out.append((st, reg, key, kind, value))
             return
         for alt in _key_alternatives(f.node, key):
-            out.append((st, reg, alt, kind))
+            out.append((st, reg, alt, kind, value))
 
     for st in ast.walk(f.node):
         if not isinstance(st, ast.stmt):
@@ -128,35 +128,35 @@ def _registry_stores(f: FuncInfo, names: set[str]) -> list[tuple[ast.stmt, str, 
                     if isinstance(t, ast.Subscript):
                         reg = _reg_of(t.value, names, aliases)
                         if reg:
-                            emit(st, reg, t.slice, "subscript")
+                            emit(st, reg, t.slice, "subscript", n.value)
             # {**x.reg, K: V} / {K: V, **x.reg}: the registry with one more entry, wherever the display is written (argument of
             # evolve(x, reg=...), or bound to a local first)
             if isinstance(n, ast.Dict) and any(k is None for k in n.keys):
                 reg = kw_dicts.get(id(n)) or next((r for k, v in zip(n.keys, n.values) if k is None
                                                    for r in [_reg_of(v, names, aliases)] if r), "")
                 if reg:
-                    for k in n.keys:
+                    for k, v in zip(n.keys, n.values):
                         if k is not None:
-                            emit(st, reg, k, "spread")
+                            emit(st, reg, k, "spread", v)
             # x.reg | {K: V}
             if isinstance(n, ast.BinOp) and isinstance(n.op, ast.BitOr):
                 for a, b in ((n.left, n.right), (n.right, n.left)):
                     reg = _reg_of(a, names, aliases)
                     if reg and isinstance(b, ast.Dict):
-                        for k in b.keys:
+                        for k, v in zip(b.keys, b.values):
                             if k is not None:
-                                emit(st, reg, k, "spread")
+                                emit(st, reg, k, "spread", v)
             if isinstance(n, ast.Call) and isinstance(n.func, ast.Attribute) and n.func.attr in ("setdefault", "add") and n.args:
                 reg = _reg_of(n.func.value, names, aliases)
                 if reg:
-                    emit(st, reg, n.args[0], n.func.attr)
+                    emit(st, reg, n.args[0], n.func.attr, n.args[1] if n.func.attr == "setdefault" and len(n.args) > 1 else None)
             if isinstance(n, ast.Call) and isinstance(n.func, ast.Attribute) and n.func.attr == "update" and n.args and \
                     isinstance(n.args[0], ast.Dict):
                 reg = _reg_of(n.func.value, names, aliases)
                 if reg:
-                    for k in n.args[0].keys:
+                    for k, v in zip(n.args[0].keys, n.args[0].values):
                         if k is not None:
-                            emit(st, reg, k, "subscript")
+                            emit(st, reg, k, "subscript", v)
     # nested functions are separate FuncInfos; drop statements that belong to them
     nested = [g for g in ast.walk(f.node) if isinstance(g, (ast.FunctionDef, ast.AsyncFunctionDef)) and g is not f.node]
     inner = {id(s) for g in nested for s in ast.walk(g)}
@@ -199,10 +199,27 @@ def _rebound_between(cfg: CFG, test: ast.stmt, store: ast.stmt, holders: set[str
     return sorted(out, key=lambda s_: getattr(s_, "lineno", 0))
 
 
-def membership_tests(f: FuncInfo, reg: str) -> list[tuple[ast.stmt, ast.expr]]:
+def membership_tests(f: FuncInfo, reg: str, ix: Any = None) -> list[tuple[ast.stmt, ast.expr]]:
     """statements of f that find out whether key K is in registry `reg`: `K in <...>.reg` (or its .keys()), reg.pop(K) / reg.get(K),
-    `reg[K]` read under a handler for the missing key; the registry may be reached through a local alias: (stmt, K)"""
+    `reg[K]` read under a handler for the missing key; the registry may be reached through a local alias: (stmt, K).  With the index
+    given, also the statements that call a private helper of f (astutil.region) which asks that question about a key it is handed:
+    the call is where the question is asked, K is the helper's key in f's terms."""
     out: list[tuple[ast.stmt, ast.expr]] = []
+    if ix is not None and reg in ATTR_REGISTRIES:
+        helpers = {g.name: g for g in region(ix, f, depth=1) if g is not f}
+        if helpers:
+            for st in ast.walk(f.node):
+                if not isinstance(st, ast.stmt):
+                    continue
+                for c in walk_own(st):
+                    g = helpers.get(call_name(c).rsplit(".", 1)[-1]) if isinstance(c, ast.Call) else None
+                    if g is None:
+                        continue
+                    env = _bind_full(g, c)
+                    for _, k in membership_tests(g, reg):
+                        k_f = _in_callers_terms(k, g, env) if names_in_load(canon_key(k, g.node)) & _params_of(g) else None
+                        if k_f is not None:
+                            out.append((st, k_f))
     aliases = _aliases(f.node)
     guarded: dict[int, ast.Try] = {}
     for t in ast.walk(f.node):
@@ -271,42 +288,26 @@ def check_registries(rep: Report, ctx: Any, rid: str) -> None:
     ix = ctx.py
     rep.rule(rid, "every keyed store into a registry of document-derived artefacts (classes_by_name, classes_by_reference, "
                   "per-model properties, per-operation python names, enum members, unique parameters, per-item module files) "
-                  "is dominated by a membership test on the same key expression in the same collection, or is a frozen "
-                  "unique-by-construction case; conflict-resolution paths end in a re-check")
+                  "is dominated by a membership test on the same key in the same collection that leads to a diagnostic - in the "
+                  "function that stores, or, when the store sits in a helper / a method of the registry that is handed the key, at "
+                  "every place the helper is called from (key read in the caller's terms) -, or re-registers an object the function "
+                  "obtained under that object's own class name, or is a frozen unique-by-construction case; conflict-resolution "
+                  "paths end in a re-check")
     cfgs: dict[str, CFG] = {}
     n_stores = 0
-    for f in ix.all_functions:
-        # the code that turns document items into artefacts: the parser, and the module that writes the artefacts out (Project)
-        if not (f.module.name.startswith(f"{PKG}.parser") or f.module.name == PKG):
-            continue
+    scope = registry_scope(ix)
+    for f in scope:
         locs = local_registries(f)
         stores = _registry_stores(f, ATTR_REGISTRIES | set(locs))
         if not stores:
             continue
         cfg = cfg_of(f, cfgs)
-        errs = error_names(f.node)
-        aliases = _aliases(f.node)
         lnames = local_names(f.node) | (local_names(f.parent.node) if f.parent is not None else set())
         mods: "set[str] | None" = None
-        for st, reg, key, kind in stores:
+        for st, reg, key, kind, value in stores:
             n_stores += 1
             ckey = f"{short(f)}::{registry_label(reg, locs)}[{anon(key, lnames)}]"
-            frozen = ckey if ckey in FROZEN else f"{short(f)}::{registry_label(reg, locs)}[{anon(_inline_locals(key, f.node), lnames)}]"
-            if frozen in FROZEN:
-                rep.ok(rid, frozen, "frozen: unique by construction", FROZEN[frozen], nontrivial=False)
-                continue
-            tests = membership_tests(f, reg)
-            same = [t for t, k in tests if same_key(k, key, f.node)]
-            other = sorted({norm(k) for t, k in tests if not same_key(k, key, f.node)})
-            if isinstance(key, ast.Constant):
-                # a literal key names a fixed slot of the program, not an item of the document: no two items can meet in it
-                rep.ok(rid, ckey, "literal key", "not derived from the document", nontrivial=False)
-                continue
-            if kind == "setdefault":
-                # setdefault is itself test-and-store: an existing entry is kept and shared (endpoints grouped by tag)
-                rep.ok(rid, ckey, "setdefault", "test-and-store in one operation", nontrivial=False)
-                continue
-            if f.name == "_add_if_no_conflict" and reg in locs:
+            if f.name == "_add_if_no_conflict" and reg in locs and not _is_frozen(f, reg, key, locs, lnames):
                 # uniqueness scope is python_name: the comparison loop must dominate the store on every path
                 def is_pyname_loop(n: object, reg: str = reg) -> bool:
                     if not isinstance(n, ast.For):
@@ -316,18 +317,20 @@ def check_registries(rep: Report, ctx: Any, rid: str) -> None:
                     body_txt = " ".join(norm(s) for s in n.body)
                     return "python_name" in body_txt and "_resolve_naming_conflict" in body_txt
 
-                ok = cfg.is_dominated_by(st, is_pyname_loop)
-                rep.check(ok, rid, ckey, "the store into the model's property table is not dominated (on every path) by the "
-                                         "python_name collision loop ending in _resolve_naming_conflict", where(f, st),
-                          lhs="store " + norm(st)[:80], rhs="dominated by `for other_prop in properties.values(): ... python_name ...`")
-                continue
-            if reg in locs:
+                if not (isinstance(key, ast.Constant) or kind == "setdefault"):
+                    ok = cfg.is_dominated_by(st, is_pyname_loop)
+                    rep.check(ok, rid, ckey, "the store into the model's property table is not dominated (on every path) by the "
+                                             "python_name collision loop ending in _resolve_naming_conflict", where(f, st),
+                              lhs="store " + norm(st)[:80], rhs="dominated by `for other_prop in properties.values(): ... python_name ...`")
+                    continue
+            if reg in locs and not _is_frozen(f, reg, key, locs, lnames) and not isinstance(key, ast.Constant) and kind != "setdefault":
                 if mods is None:
                     mods = modification_sets(f, ix)
                 if mods:
                     # a table kept by a pass that is re-run whenever something was modified (the pass records modifications in a
                     # set that decides the re-run): a store is justified by a dominating pop / membership test of its key, or by a
                     # modification recorded before it on every path - the next pass compares the entry again
+                    same = [t for t, k in membership_tests(f, reg, ix) if same_key(k, key, f.node)]
                     dominated = any(cfg.is_dominated_by(st, lambda n, t=t: n is t) for t in same)
                     if not dominated:
                         helpers = _helpers_of(ix, f)
@@ -336,36 +339,8 @@ def check_registries(rep: Report, ctx: Any, rid: str) -> None:
                                                     "test of the same key expression", where(f, st),
                               lhs="store " + norm(st)[:80], rhs=f"dominated by pop/in on `{norm(key)}`")
                     continue
-            if not same:
-                msg = "no membership test on the stored key in the same collection"
-                if other:
-                    msg += f" (a different key is tested: {other} - the test and the store disagree)"
-                rep.fail(rid, ckey, msg, where(f, st), lhs="stored key " + norm(key), rhs=f"tested keys {other}")
-                continue
-            dominated = any(cfg.is_dominated_by(st, lambda n, t=t: n is t) for t in same)
-            if not dominated:
-                rep.fail(rid, ckey, "the membership test on this key does not dominate the store (some path skips it)",
-                         where(f, st), lhs="store " + norm(st)[:80], rhs="dominated by test")
-                continue
-            # the test must lead to a diagnostic: some return of an error is reachable from the test without passing the store
-            t0 = next(t for t in same if cfg.is_dominated_by(st, lambda n, t=t: n is t))
-            reach = cfg.reachable_from(t0, avoid=lambda n: n is st)
-            leads = any(isinstance(n, ast.stmt) and (returns_error(n, errs) or isinstance(n, ast.Raise)) for n in reach)
-            if not leads:
-                rep.fail(rid, ckey, "the membership test never leads to an error return or raise: a duplicate is not diagnosed",
-                         where(f, st), lhs="test " + norm(t0)[:80], rhs="reaches `return <error>` avoiding the store")
-                continue
-            # test and store must see the same registry: the variable holding it is not rebound on any path between them (a call
-            # that returns a new registry state in between may have added the very key that was tested).  Taking the working copy
-            # that is then filled is not a rebinding; what it is copied from is a holder like any other.
-            copies = _alias_definitions(f.node, reg)
-            holders = _holders(t0, reg, aliases) | _holders(st, reg, aliases)
-            for c_ in copies:
-                holders |= _holders(c_, reg, aliases)
-            stale = _rebound_between(cfg, t0, st, holders, benign=copies)
-            rep.check(not stale, rid, ckey, "the registry is replaced between the membership test and the store: entries added in "
-                                            "between under the same key are overwritten without a diagnostic", where(f, stale[0] if stale else st),
-                      lhs="test " + norm(t0)[:60] + " ... " + (norm(stale[0])[:60] if stale else ""), rhs="no rebinding of the holder between test and store")
+            for o in _judge(ix, f, st, reg, key, kind, value, set(), cfgs, scope, depth=2, lifted=False):
+                o.emit(rep, rid)
     rep.floor("registry_stores", n_stores, 8)
 
     # ---- compatibility condition of the enum builders (existing entry of another kind must be an error) ----------
@@ -383,6 +358,442 @@ def check_registries(rep: Report, ctx: Any, rid: str) -> None:
         rep.require(found, f"{cname}.build compatibility test")
 
     check_param_conflicts(rep, ctx, rid, cfgs)
+
+
+def registry_scope(ix: Any) -> list[FuncInfo]:
+    """the code that turns document items into artefacts: the parser, and the module that writes the artefacts out (Project)"""
+    return [f for f in ix.all_functions if f.module.name.startswith(f"{PKG}.parser") or f.module.name == PKG]
+
+
+def _is_frozen(f: FuncInfo, reg: str, key: ast.expr, locs: dict[str, str], lnames: set[str]) -> "str | None":
+    for shown in (key, _inline_locals(key, f.node), canon_key(key, f.node)):
+        k = f"{short(f)}::{registry_label(reg, locs)}[{anon(shown, lnames)}]"
+        if k in FROZEN:
+            return k
+    return None
+
+
+class _Outcome:
+    """one obligation of the registry rule: ok (None = discharged for a stated reason that needs no proof), key, texts"""
+
+    def __init__(self, ok: "bool | None", ckey: str, msg: str, detail: str = "", at: str = "", lhs: Any = None, rhs: Any = None) -> None:
+        self.ok, self.ckey, self.msg, self.detail, self.at, self.lhs, self.rhs = ok, ckey, msg, detail, at, lhs, rhs
+
+    def emit(self, rep: Report, rid: str) -> None:
+        if self.ok is None:
+            rep.ok(rid, self.ckey, self.msg, self.detail, nontrivial=False)
+        else:
+            rep.check(self.ok, rid, self.ckey, self.msg, self.at, lhs=self.lhs, rhs=self.rhs)
+
+
+# the attribute path under which an entry of a registry carries its own key
+OWN_KEY = {"classes_by_name": ("class_info", "name")}
+
+
+def _judge(ix: Any, h: FuncInfo, at: ast.stmt, reg: str, key: ast.expr, kind: str, value: "ast.expr | None", holders: set[str],
+           cfgs: dict[str, CFG], scope: list[FuncInfo], depth: int, lifted: bool) -> list[_Outcome]:
+    """Is the store of `key` into `reg` justified at statement `at` of h?  `at` is the storing statement itself, or - when the store
+    was lifted out of a helper - the statement of h that calls the helper (`key` then reads in h's terms, `holders` are the locals of
+    h through which the helper reaches the registry)."""
+    fn = h.node
+    locs = local_registries(h)
+    lnames = local_names(fn) | (local_names(h.parent.node) if h.parent is not None else set())
+    ckey = f"{short(h)}::{registry_label(reg, locs)}[{anon(simplify_fields(key, fn) if lifted else key, lnames)}]"
+    frozen = _is_frozen(h, reg, key, locs, lnames)
+    if frozen:
+        return [_Outcome(None, frozen, "frozen: unique by construction", FROZEN[frozen])]
+    if isinstance(key, ast.Constant):
+        # a literal key names a fixed slot of the program, not an item of the document: no two items can meet in it
+        return [_Outcome(None, ckey, "literal key", "not derived from the document")]
+    if kind == "setdefault":
+        # setdefault is itself test-and-store: an existing entry is kept and shared (endpoints grouped by tag)
+        return [_Outcome(None, ckey, "setdefault", "test-and-store in one operation")]
+    if reg in OWN_KEY and _reregistration(ix, h, reg, key, value):
+        return [_Outcome(None, ckey, "re-registration", "the entry is an object this function obtained (possibly copied with evolve(), "
+                         "its class untouched), stored under that object's own class name: the item it replaces is the same item "
+                         "(model objects are registered where they are built)")]
+    cfg = cfg_of(h, cfgs)
+    errs = error_names(fn)
+    aliases = _aliases(fn)
+    tests = membership_tests(h, reg, ix)
+    same = [t for t, k in tests if same_key(k, key, fn)]
+    other = sorted({norm(k) for t, k in tests if not same_key(k, key, fn)})
+    if not same:
+        sites = _lift(ix, h, at, reg, key, value, holders, scope) if depth > 0 and reg in ATTR_REGISTRIES else []
+        if sites:
+            # the store sits in a helper that is handed the key: each place the helper is called from must justify it
+            return [o for g, st_g, key_g, value_g, hold_g in sites
+                    for o in _judge(ix, g, st_g, reg, key_g, "call", value_g, hold_g, cfgs, scope, depth - 1, True)]
+        msg = "no membership test on the stored key in the same collection"
+        if other:
+            msg += f" (a different key is tested: {other} - the test and the store disagree)"
+        return [_Outcome(False, ckey, msg, at=where(h, at), lhs="stored key " + norm(key), rhs=f"tested keys {other}")]
+    dominated = any(cfg.is_dominated_by(at, lambda n, t=t: n is t) for t in same)
+    if not dominated:
+        return [_Outcome(False, ckey, "the membership test on this key does not dominate the store (some path skips it)",
+                         at=where(h, at), lhs="store " + norm(at)[:80], rhs="dominated by test")]
+    # the test must lead to a diagnostic: some return of an error is reachable from the test without passing the store
+    t0 = next(t for t in same if cfg.is_dominated_by(at, lambda n, t=t: n is t))
+    reach = cfg.reachable_from(t0, avoid=lambda n: n is at)
+    raised, maybe_errors = _asked_in_helper(ix, h, t0, reg, cfgs)
+    leads = raised or any(isinstance(n, ast.stmt) and (returns_error(n, errs | maybe_errors) or isinstance(n, ast.Raise)) for n in reach)
+    if not leads:
+        return [_Outcome(False, ckey, "the membership test never leads to an error return or raise: a duplicate is not diagnosed",
+                         at=where(h, at), lhs="test " + norm(t0)[:80], rhs="reaches `return <error>` avoiding the store")]
+    # test and store must see the same registry: the variable holding it is not rebound on any path between them (a call
+    # that returns a new registry state in between may have added the very key that was tested).  Taking the working copy
+    # that is then filled is not a rebinding; what it is copied from is a holder like any other.
+    copies = _alias_definitions(fn, reg)
+    hold = _holders(t0, reg, aliases) | _holders(at, reg, aliases) | set(holders)
+    for c_ in copies:
+        hold |= _holders(c_, reg, aliases)
+    stale = _rebound_between(cfg, t0, at, hold, benign=copies)
+    return [_Outcome(not stale, ckey, "the registry is replaced between the membership test and the store: entries added in "
+                     "between under the same key are overwritten without a diagnostic", at=where(h, stale[0] if stale else at),
+                     lhs="test " + norm(t0)[:60] + " ... " + (norm(stale[0])[:60] if stale else ""),
+                     rhs="no rebinding of the holder between test and store")]
+
+
+def _asked_in_helper(ix: Any, h: FuncInfo, t0: ast.stmt, reg: str, cfgs: dict[str, CFG]) -> tuple[bool, set[str]]:
+    """When statement t0 of h asks its question by calling a private helper (the membership test is in the helper): (the helper
+    raises on a path from its test, the locals of h that t0 binds to the helper's result when the helper returns an error on a path
+    from its test - they may hold the diagnostic)"""
+    raised, names = False, set()
+    if ix is None:
+        return raised, names
+    helpers = {g.name: g for g in region(ix, h, depth=1) if g is not h}
+    for c in walk_own(t0):
+        g = helpers.get(call_name(c).rsplit(".", 1)[-1]) if isinstance(c, ast.Call) else None
+        if g is None:
+            continue
+        gerrs = error_names(g.node)
+        gcfg = cfg_of(g, cfgs)
+        for t, _ in membership_tests(g, reg):
+            after = [n for n in gcfg.reachable_from(t) if isinstance(n, ast.stmt)]
+            raised = raised or any(isinstance(n, ast.Raise) for n in after)
+            if any(returns_error(n, gerrs) for n in after) and isinstance(t0, (ast.Assign, ast.AnnAssign)):
+                for tg in (t0.targets if isinstance(t0, ast.Assign) else [t0.target]):
+                    names |= {x.id for x in ast.walk(tg) if isinstance(x, ast.Name)}
+    return raised, names
+
+
+# ---- the key in canonical terms ----------------------------------------------------------------------------------------------------
+_COPY_WITH = ("evolve", "replace")          # evolve(X, field=V, ...): X with some fields replaced
+_COPY_PLAIN = ("deepcopy", "copy")
+
+
+class _Fields(ast.NodeTransformer):
+    """reads of a field of a record whose construction is in sight are what the field was built from: `C(a=E, ...).a` is E,
+    `evolve(X, b=..).a` is `X.a`, `evolve(X, a=E).a` is E (keyword construction only; positional fields are left alone).  With
+    `once` (the once-bound locals of the function) a local that holds such a record is looked through, and only then."""
+
+    def __init__(self, once: "dict[str, ast.AST] | None" = None) -> None:
+        self.once = once or {}
+
+    def visit_Attribute(self, n: ast.Attribute) -> ast.AST:
+        import copy
+
+        self.generic_visit(n)
+        src: ast.AST = n.value
+        hops = 0
+        while isinstance(src, ast.Name) and src.id in self.once and hops < 4:
+            src, hops = self.once[src.id], hops + 1
+        if not isinstance(n.ctx, ast.Load) or not isinstance(src, ast.Call) or any(k.arg is None for k in src.keywords):
+            return n
+        last = call_name(src).rsplit(".", 1)[-1]
+        kws = {k.arg: k.value for k in src.keywords}
+        if last in _COPY_WITH and src.args and not isinstance(src.args[0], ast.Starred):
+            if n.attr in kws:
+                return copy.deepcopy(kws[n.attr])
+            return self.visit(ast.copy_location(ast.Attribute(value=copy.deepcopy(src.args[0]), attr=n.attr, ctx=ast.Load()), n))
+        if last in _COPY_PLAIN and len(src.args) == 1 and not src.keywords:
+            return self.visit(ast.copy_location(ast.Attribute(value=copy.deepcopy(src.args[0]), attr=n.attr, ctx=ast.Load()), n))
+        if (last[:1].isupper() or last == "cls") and n.attr in kws:
+            return copy.deepcopy(kws[n.attr])
+        return n
+
+
+def simplify_fields(e: ast.AST, fn: ast.AST) -> ast.AST:
+    """e with the field reads that can be decided replaced (see _Fields); every other local stays as it is spelled"""
+    import copy
+
+    return ast.fix_missing_locations(_Fields(_single_assignments(fn)).visit(copy.deepcopy(e)))
+
+
+def canon_key(e: ast.AST, fn: ast.AST) -> ast.AST:
+    """the key in terms of parameters, loop variables and attributes: field reads from a record built in sight replaced by what the
+    field was built from, once-bound locals replaced by what they are bound to"""
+    import copy
+
+    out = _inline_locals(simplify_fields(e, fn), fn)
+    return ast.fix_missing_locations(_Fields().visit(copy.deepcopy(out)))
+
+
+def _params_of(h: FuncInfo) -> set[str]:
+    a = h.node.args
+    return {x.arg for x in [*a.posonlyargs, *a.args, *a.kwonlyargs]}
+
+
+def _origin(e: ast.AST, fn: ast.AST, field: str) -> ast.AST:
+    """the object e is a copy of: once-bound locals looked through, evolve(X, ...) that leaves `field` alone / deepcopy(X) peeled"""
+    once = _single_assignments(fn)
+    for _ in range(6):
+        if isinstance(e, ast.Name) and e.id in once:
+            e = once[e.id]
+        elif isinstance(e, ast.Call) and not any(k.arg is None for k in e.keywords) and e.args and (
+                (call_name(e).rsplit(".", 1)[-1] in _COPY_WITH and field not in {k.arg for k in e.keywords}) or
+                (call_name(e).rsplit(".", 1)[-1] in _COPY_PLAIN and len(e.args) == 1)):
+            e = e.args[0]
+        else:
+            break
+    return e
+
+
+def _obtained(ix: Any, h: FuncInfo, e: ast.AST, field: str, busy: "set[str] | None" = None, idx: "int | None" = None, depth: int = 2) -> bool:
+    """the object denoted by e was obtained by h, not built by it and not handed in: the result of a call to something that is neither
+    a class nor a private helper of h's own, or a copy (evolve / deepcopy) of such an object that leaves `field` as it was.  The result
+    of a private helper is what the helper returns, read in h's terms.  A parameter is neither: whoever calls h knows."""
+    busy = busy if busy is not None else set()
+    if isinstance(e, ast.Name):
+        if e.id in busy:
+            return True
+        ds = _locals(h.node).defs.get(e.id, [])
+        if e.id in _params_of(h) or not ds:
+            return False
+        out = True
+        for k, _, v in ds:
+            if not k.startswith("assign") or v is None:
+                return False
+            i = int(k[k.index("[") + 1:k.index("]")]) if "[" in k else None
+            out = out and _obtained(ix, h, v, field, busy | {e.id}, i, depth)
+        return out
+    if isinstance(e, ast.Call):
+        if any(k.arg is None for k in e.keywords):
+            return False
+        last = call_name(e).rsplit(".", 1)[-1]
+        if last in _COPY_WITH and e.args:
+            return idx is None and field not in {k.arg for k in e.keywords} and _obtained(ix, h, e.args[0], field, busy, None, depth)
+        if last in _COPY_PLAIN and len(e.args) == 1:
+            return idx is None and _obtained(ix, h, e.args[0], field, busy, None, depth)
+        if last[:1].isupper() or last in ("cls", "type"):
+            return False
+        if last.startswith("_"):
+            g = next((g for g in region(ix, h, depth=1) if g is not h and g.name == last), None) if ix is not None else None
+            if g is None or depth <= 0:
+                return False
+            env = _bind_full(g, e)
+            rets = [r.value for r in _own_nodes(g.node) if isinstance(r, ast.Return)]
+            if not rets:
+                return False
+            for r in rets:
+                if idx is not None:
+                    if not (isinstance(r, ast.Tuple) and idx < len(r.elts)):
+                        return False
+                    r = r.elts[idx]
+                if r is None:
+                    return False
+                ck = canon_key(r, g.node)
+                used = names_in_load(ck) & _params_of(g)
+                if (names_in_load(ck) & local_names(g.node)) or not used <= set(env):
+                    return False
+                if not _obtained(ix, h, _subst(ck, {p_: env[p_] for p_ in used}), field, busy, None, depth - 1):
+                    return False
+            return True
+        return True
+    return False
+
+
+def _own_path(k: ast.AST, path: tuple[str, ...]) -> "ast.AST | None":
+    """O when k reads `O.<path>`"""
+    for attr in reversed(path):
+        if not (isinstance(k, ast.Attribute) and k.attr == attr):
+            return None
+        k = k.value
+    return k
+
+
+def _reregistration(ix: Any, h: FuncInfo, reg: str, key: ast.expr, value: "ast.expr | None") -> bool:
+    """the key is read from the stored object itself (`V.class_info.name` for the stored V, the key possibly held in a local first,
+    V possibly a copy of the object the key is read from that leaves its class alone) and V is an object h obtained"""
+    if value is None:
+        return False
+    path = OWN_KEY[reg]
+    obj = _own_path(key, path) or _own_path(simplify_fields(key, h.node), path) or _own_path(_inline_locals(key, h.node), path)
+    if obj is None:
+        return False
+    a, b = _origin(obj, h.node, path[0]), _origin(value, h.node, path[0])
+    return norm(a) == norm(b) and _obtained(ix, h, value, path[0])
+
+
+# ---- who calls a function ------------------------------------------------------------------------------------------------------------
+def _own_nodes(fn: ast.AST) -> Any:
+    stack = list(ast.iter_child_nodes(fn))
+    while stack:
+        n = stack.pop()
+        yield n
+        if not isinstance(n, (ast.FunctionDef, ast.AsyncFunctionDef, ast.Lambda, ast.ClassDef)):
+            stack.extend(ast.iter_child_nodes(n))
+
+
+def _ann_classes(ix: Any, ann: "ast.AST | None", idx: "int | None" = None) -> set[str]:
+    """short names of the repository's classes an annotation mentions (the idx-th element of a tuple[...] when given)"""
+    if ann is None:
+        return set()
+    if isinstance(ann, ast.Constant) and isinstance(ann.value, str):
+        try:
+            ann = ast.parse(ann.value, mode="eval").body
+        except SyntaxError:
+            return set()
+    if idx is not None and isinstance(ann, ast.Subscript) and norm(ann.value).rsplit(".", 1)[-1] in ("tuple", "Tuple") and \
+            isinstance(ann.slice, ast.Tuple) and idx < len(ann.slice.elts):
+        ann = ann.slice.elts[idx]
+    known = {c.name for c in ix.classes.values()}
+    out: set[str] = set()
+    for n in ast.walk(ann):
+        if isinstance(n, ast.Name) and n.id in known:
+            out.add(n.id)
+        elif isinstance(n, ast.Attribute) and n.attr in known:
+            out.add(n.attr)
+        elif isinstance(n, ast.Constant) and isinstance(n.value, str) and n is not ann:
+            out |= _ann_classes(ix, n)
+    return out
+
+
+def receiver_classes(ix: Any, h: FuncInfo, e: ast.AST, depth: int = 3, idx: "int | None" = None) -> set[str]:
+    """the repository classes the value of e can be an instance of, from annotations only (parameters, annotated locals, return
+    annotations of the functions whose result a local is bound to, declared fields); empty: not known"""
+    if depth <= 0:
+        return set()
+    if isinstance(e, ast.Name):
+        if e.id in ("self", "cls") and h.cls is not None:
+            return {h.cls.name}
+        out: set[str] = set()
+        for x in h.params:
+            if x.arg == e.id:
+                out |= _ann_classes(ix, x.annotation)
+        for n in _own_nodes(h.node):
+            if isinstance(n, ast.AnnAssign) and isinstance(n.target, ast.Name) and n.target.id == e.id:
+                out |= _ann_classes(ix, n.annotation)
+        for k, _, v in _locals(h.node).defs.get(e.id, []):
+            if k.startswith("assign") and v is not None:
+                i = int(k[k.index("[") + 1:k.index("]")]) if "[" in k else None
+                out |= receiver_classes(ix, h, v, depth - 1, i)
+        return out
+    if isinstance(e, ast.Call):
+        last = call_name(e).rsplit(".", 1)[-1]
+        if last in _COPY_WITH + _COPY_PLAIN and e.args:
+            return receiver_classes(ix, h, e.args[0], depth - 1)
+        if last == "cls" and h.cls is not None:
+            return {h.cls.name}
+        if any(c.name == last for c in ix.classes.values()):
+            return {last}
+        out = set()
+        for g in ix.all_functions:
+            if g.name == last:
+                out |= _ann_classes(ix, g.node.returns, idx)
+        return out
+    if isinstance(e, ast.Attribute):
+        out = set()
+        for cn in receiver_classes(ix, h, e.value, depth - 1):
+            for c in ix.classes.values():
+                if c.name == cn:
+                    out |= _ann_classes(ix, ix.all_fields(c).get(e.attr))
+        return out
+    if isinstance(e, ast.IfExp):
+        return receiver_classes(ix, h, e.body, depth - 1) | receiver_classes(ix, h, e.orelse, depth - 1)
+    return set()
+
+
+def callers_of(ix: Any, g: FuncInfo, scope: "list[FuncInfo] | None" = None) -> list[tuple[FuncInfo, ast.Call]]:
+    """(function, call) for the calls of g in the package: a module-level function by its plain or module-qualified name, a method
+    through any receiver - told apart from a method of the same name in another class by the declared class of the receiver, when
+    that is known (an unknown receiver counts as a call: the answer errs on the side of more call sites)"""
+    if g.parent is not None:
+        scope = [g.parent]
+    out: list[tuple[FuncInfo, ast.Call]] = []
+    rivals = [c for c in ix.classes.values() if g.cls is not None and c is not g.cls and g.name in c.methods]
+    homonyms = [f for f in ix.all_functions if f.name == g.name and f is not g and f.cls is None and f.parent is None]
+    for h in (scope if scope is not None else ix.all_functions):
+        if h is g:
+            continue
+        for c in _own_nodes(h.node):
+            if not isinstance(c, ast.Call):
+                continue
+            cn = call_name(c)
+            if cn.rsplit(".", 1)[-1] != g.name:
+                continue
+            if isinstance(c.func, ast.Name):
+                if g.cls is not None and g.parent is None:
+                    continue  # a method is not called by its bare name
+                r = ix.resolve(h.module, cn)
+                if r is not None and r[0] == "func" and r[1] is not g and g.parent is None:
+                    continue
+                out.append((h, c))
+            elif isinstance(c.func, ast.Attribute):
+                if g.cls is None:
+                    r = ix.resolve(h.module, cn)
+                    if (r is not None and r[0] == "func" and r[1] is g) or (r is None and not homonyms and
+                                                                            h.module.imports.get(cn.split(".", 1)[0]) is not None):
+                        out.append((h, c))
+                    continue
+                known = receiver_classes(ix, h, c.func.value)
+                head = dotted(c.func.value) or ""
+                if head and any(k.name == head for k in ix.classes.values()):
+                    known = {head}
+                if rivals and known:
+                    mine = {k.name for k in ix.classes.values() if g.cls in ix.mro(k)}
+                    if not (known & mine):
+                        continue
+                out.append((h, c))
+    return out
+
+
+def _bind_full(g: FuncInfo, call: ast.Call) -> dict[str, ast.AST]:
+    """_bind_call plus the receiver: `self` of a method is what the method is called on"""
+    env = _bind_call(g, call)
+    a = g.node.args
+    pos = [x.arg for x in [*a.posonlyargs, *a.args]]
+    if pos and pos[0] == "self" and g.kind in ("method", "property") and isinstance(call.func, ast.Attribute):
+        env["self"] = call.func.value
+    return env
+
+
+def _root_name(e: ast.AST) -> "str | None":
+    while isinstance(e, (ast.Attribute, ast.Subscript, ast.Call)):
+        e = e.func if isinstance(e, ast.Call) else e.value
+    return e.id if isinstance(e, ast.Name) else None
+
+
+def _in_callers_terms(e: "ast.AST | None", h: FuncInfo, env: dict[str, ast.AST]) -> "ast.AST | None":
+    """expression e of h as the caller reads it (parameters replaced by the actual arguments); None when it cannot be expressed
+    there: it reads a local of h that is not just a name for something, or a parameter the call leaves to its default"""
+    if e is None:
+        return None
+    ck = canon_key(e, h.node)
+    used = names_in_load(ck) & _params_of(h)
+    if (names_in_load(ck) & local_names(h.node)) or not used <= set(env):
+        return None
+    return _subst(ck, {p_: env[p_] for p_ in used})
+
+
+def _lift(ix: Any, h: FuncInfo, at: ast.stmt, reg: str, key: ast.expr, value: "ast.expr | None", holders: set[str],
+          scope: list[FuncInfo]) -> list[tuple[FuncInfo, ast.stmt, ast.expr, "ast.expr | None", set[str]]]:
+    """The store of `key` at statement `at` of h, seen from the functions that call h: (caller, calling statement, key and stored value
+    in the caller's terms, the caller's locals through which h reaches the registry).  Only when the key is computed from parameters
+    of h (the caller decides what is stored) and every call site hands all of them over; otherwise nothing."""
+    if h.parent is not None or not (names_in_load(canon_key(key, h.node)) & _params_of(h)):
+        return []
+    mine = (_holders(at, reg, _aliases(h.node)) | set(holders)) & _params_of(h)
+    out = []
+    for g, call in callers_of(ix, h, scope):
+        env = _bind_full(h, call)
+        st_g = _stmt_containing(g.node, call)
+        key_g = _in_callers_terms(key, h, env)
+        if key_g is None or st_g is None:
+            return []
+        hold = {r for p_ in mine if p_ in env for r in [_root_name(env[p_])] if r}
+        out.append((g, st_g, key_g, _in_callers_terms(value, h, env), hold))
+    return out
 
 
 def _lookup(e: ast.AST, aliases: dict[str, str]) -> bool:
@@ -952,14 +1363,53 @@ def check_module_files(rep: Report, ctx: Any, rid: str) -> None:
         for node, name in _path_constructions(g.node):
             lift(g, node, name, [], 2)
 
+    def constants(e: ast.AST, g: FuncInfo, depth: int = 3) -> "list[Any] | None":
+        """the values of e when it is a display of constants: written in place, or a local / module-level / class-level name for one"""
+        if isinstance(e, (ast.Tuple, ast.List, ast.Set)):
+            return [x.value for x in e.elts] if e.elts and all(isinstance(x, ast.Constant) for x in e.elts) else None
+        if isinstance(e, ast.Call) and call_name(e) in ("tuple", "list", "sorted", "frozenset", "set") and len(e.args) == 1 and not e.keywords:
+            return constants(e.args[0], g, depth)
+        if depth <= 0:
+            return None
+        if isinstance(e, ast.Name):
+            once = _single_assignments(g.node)
+            if e.id in once:
+                return constants(once[e.id], g, depth - 1)
+            if e.id not in local_names(g.node) and e.id not in _params_of(g) and e.id in g.module.variables:
+                return constants(g.module.variables[e.id], g, depth - 1)
+        if isinstance(e, ast.Attribute) and isinstance(e.value, ast.Name) and e.value.id in ("self", "cls", proj.name):
+            cv = ix.find_classvar(proj, e.attr)
+            return constants(cv[1], g, depth - 1) if cv is not None else None
+        return None
+
+    def in_terms_of(g: FuncInfo, name: ast.AST, it: ast.AST, lnames: set[str], depth: int = 3) -> tuple[FuncInfo, ast.AST, ast.AST, set[str]]:
+        """the site (files named NAME, one per element of IT) read in the terms of the method that determines it: while NAME or IT
+        are computed from parameters of g (other than self) and g is called from one place, they are what that caller hands over.
+        The method that holds the loop is incidental (the loop may be moved into a helper and back)."""
+        params = _params_of(g) - {"self", "cls"}
+        lnames = lnames | local_names(g.node)
+        behind = _names_behind(name, g.node) | _names_behind(it, g.node)
+        cs = call_sites(g)
+        if depth <= 0 or not (behind & params) or len(cs) != 1:
+            return g, name, it, lnames
+        h, call = cs[0]
+        env = {p_: a for p_, a in _bind_call(g, call).items() if p_ in params}
+        return in_terms_of(h, _subst(name, env), _subst(it, env), lnames, depth - 1)
+
     n = 0
     seen: set[tuple[int, str]] = set()
     for f, loop, name, node, guards in sites:
-        lnames = local_names(f.node)
-        key = f"{short(f)}::file[{anon(name, lnames)}]@{anon(loop.iter, lnames)}"
+        kf, kname, kiter, lnames = in_terms_of(f, name, loop.iter, set())
+        key = f"{short(kf)}::file[{anon(kname, lnames)}]@{anon(kiter, lnames)}"
         if (id(loop), key) in seen:
             continue
         seen.add((id(loop), key))
+        fixed = constants(loop.iter, f)
+        if fixed is not None:
+            # the loop goes through names written in the program, not through items of the document: what could meet in one file is
+            # decided by the program text alone
+            rep.ok(rid, key, "fixed names", "the file names come from a list of constants in the program, not from the document", nontrivial=False)
+            continue
         n += 1
         guarded = False
         for g, scope, users in guards:
